@@ -11,7 +11,6 @@ tree - the deviation is not trusted: the run ends as ANALYSIS-ERROR (exit 2, "ca
   dict-dispatch  subscript of a dict display (or of a class-level / module-level dict) by a non-constant key
   next-sentinel  a loop driven by next(it, sentinel)
   while-true     while True with breaks
-  global         global / nonlocal declarations
 """
 from __future__ import annotations
 
@@ -46,6 +45,4 @@ def features_of(node: ast.AST) -> Set[str]:
             if any(isinstance(x, ast.Call) and isinstance(x.func, ast.Name) and x.func.id == "next" and len(x.args) == 2
                    for x in ast.walk(n.test)):
                 out.add("next-sentinel")
-        elif isinstance(n, (ast.Global, ast.Nonlocal)):
-            out.add("global")
     return out
